@@ -11,7 +11,7 @@ TAIL = [Q(["cmp", "val", "=", 5]), Q(["cmp", "val", "=", 1]), Q(["cmp", "val", "
 
 
 def run(prop, tier, replay):
-    return T.run(prop, tier, FAMILIES, {"IndexedScanEqualsEval", "IndexedCountEqualsEval"}, tail_steps=TAIL, quick_cap=1000,
+    return T.run(prop, tier, FAMILIES, {"IndexedScanEqualsEval", "IndexedCountEqualsEval"}, replay=replay, tail_steps=TAIL, quick_cap=1000,
                  assumptions=["btree index on the nullable int column; predicates without negation (the negation-over-NULL defect is "
                               "a known finding of C19/C12)", "in-place column rewrites (partial-schema merge_insert) and DataReplacement are not generated",
                               "the design model checks IndexCoverageSound (fragment bitmap vs snapshot of indexed values) with the "
